@@ -252,6 +252,9 @@ func c16() {
 	for _, t := range types {
 		for j := 0; j < 3; j++ {
 			v := g.value(t, 0)
+			if v.multiMap() {
+				continue // entry order is Go's random map order: bytes are not comparable
+			}
 			x := t.toGo(v).Addr().Interface()
 			size := guardedSize(x)
 			if size < 0 || size > 400 {
